@@ -100,14 +100,24 @@ Print Assumptions C01_boxcox2sym_invertible.
    Forward switches on w = nu + scale*x >= EPS, backward on y >= EPS: exact
    invertibility needs both to take the same side (it is FALSE in a band of
    relative width ~1e-10 above w = EPS when lam < 1; DESIGN 5/C01 G); the
-   hypothesis holds for every w <= 0 (third conjunct). ---- *)
+   hypothesis is PROVED for every w <= 0 and every w >= 2 EPS (the latter uses
+   the extracted bound lam >= -1), so the round trip is exact outside the band
+   0 < w < 2 EPS (last conjunct). ---- *)
 Theorem C01_yeojohnson_invertible :
   (forall nu scale lam x, yj_params_ok nu scale lam -> yj_same_side lam (yj_w nu scale x) ->
      yj_bwd nu scale lam (yj_fwd nu scale lam x) = x) /\
   (forall nu scale lam y, yj_params_ok nu scale lam -> yj_same_side_bwd lam y -> yj_image lam y ->
      yj_fwd nu scale lam (yj_bwd nu scale lam y) = y) /\
-  (forall lam w, w <= 0 -> yj_same_side lam w).
-Proof. exact (conj yj_bwd_fwd (conj yj_fwd_bwd yj_same_side_nonpos)). Qed.
+  (forall lam w, w <= 0 -> yj_same_side lam w) /\
+  (forall lam w, -1 <= lam -> 2 * EPS <= w -> yj_same_side lam w) /\
+  (* hence: exact for every x whose w lies outside the band 0 < w < 2 EPS *)
+  (forall nu scale lam x, yj_params_ok nu scale lam ->
+     (yj_w nu scale x <= 0 \/ 2 * EPS <= yj_w nu scale x) ->
+     yj_bwd nu scale lam (yj_fwd nu scale lam x) = x).
+Proof.
+  exact (conj yj_bwd_fwd (conj yj_fwd_bwd (conj yj_same_side_nonpos
+          (conj yj_same_side_pos yj_bwd_fwd_outside_band)))).
+Qed.
 Print Assumptions C01_yeojohnson_invertible.
 
 (* ---- LogSinh : domain = the np.where guard  x/xmax > -a/b + EPS ---- *)
@@ -210,6 +220,7 @@ Example C01_nonvacuous :
    yj_params_ok 0 1 0 /\ yj_same_side 0 (yj_w 0 1 0) /\ isclose 0 0 = true) /\
   (yj_same_side 1 (yj_w 0 1 1) /\ isclose 1 0 = false) /\
   (yj_image 2 (-1) /\ yj_same_side_bwd 2 (-1)) /\
+  (yj_params_ok 0 1 (1/2) /\ 2 * EPS <= yj_w 0 1 1) /\
   (* LogSinh *) (logsinh_params_ok (-1) 0 1 /\ logsinh_guard (-1) 0 1 1 = true) /\
   (* Softmax *) softmax_dom [[1/4; 1/4]; [1/2]] /\
   (* Sinh *) sinh_params_ok 0 1 /\
@@ -218,7 +229,7 @@ Example C01_nonvacuous :
    Rltb EPS (Rabs 1) = true /\ (EPS < Rabs 1 -> 0 < 1 + 1 * 1)).
 Proof.
   exact (conj ex_logit (conj ex_log (conj ex_bc2 (conj ex_bc2_image (conj ex_bc1
-        (conj ex_bc2sym_image (conj ex_yj (conj ex_yj_pos (conj ex_yj_image (conj ex_logsinh
-        (conj ex_softmax (conj ex_sinh ex_manly)))))))))))).
+        (conj ex_bc2sym_image (conj ex_yj (conj ex_yj_pos (conj ex_yj_image (conj ex_yj_band (conj ex_logsinh
+        (conj ex_softmax (conj ex_sinh ex_manly))))))))))))).
 Qed.
 Print Assumptions C01_nonvacuous.
